@@ -66,6 +66,7 @@ func c09Check(rep *Report, c *L2Case, initObs Ov) {
 		pendingRefund := false
 		for _, ev := range evs {
 			if ev.IsDep {
+				rep.Hist("deposit-event:" + map[bool]string{true: "credited", false: "refunded"}[ev.Success] + ":hook-" + o.Hook.Kind + o.Kind[:0])
 				devs = append(devs, ev)
 				pendingRefund = !ev.Success
 				di := l2IdxS(tr.Denoms, ev.Denom)
@@ -273,7 +274,7 @@ func genC09(seed uint64, tier string, outdir string) *Report {
 	rep.Rule = "a case is one random history on a fresh chain; distinct by hash of the op list; non-trivial = at least one withdrawal accepted, one rejected and one deposit refunded"
 	nCases, length := 48, 70
 	if tier == "thorough" {
-		nCases, length = 600, 140
+		nCases, length = 400, 120
 	}
 	var texts []string
 	for k := 0; k < nCases; k++ {
